@@ -366,14 +366,46 @@ def check_state_apis(ctx, tree, rng):
   check_flat_equals(ctx, 'state.merge', statelib.merge_state(s0, s1, s2), w, extra='3-way')
 
   # split is a partition whose merge is the identity; filter is a subset
+  def Not(f):
+    n = nnx.Not(f)
+    object.__setattr__(n, '_vf_inner', f) if hasattr(n, '__dataclass_fields__') else setattr(n, '_vf_inner', f)
+    return n
+
   filt_sets = [(nnx.Param, ...), (nnx.BatchStat, nnx.Param, ...), ('t0', nnx.PathContains('a'), ...),
-               (nnx.Not(nnx.Param), ...), (nnx.PathContains(0), nnx.PathContains('b'), ...), (...,)]
+               (Not(nnx.Param), ...), (nnx.PathContains(0), nnx.PathContains('b'), ...), (...,),
+               (Not(nnx.PathContains('a')), ...), (Not('t0'), ...), (nnx.Param, Not('t0'), ...),
+               (Not(nnx.PathContains('b')), nnx.BatchStat, ...), ('t1', nnx.Param, ...), (Not('t1'), Not(nnx.Param), ...)]
+
+  def ref_match(f, path, v):
+    # independent reading of the filter forms used above
+    if f is ...:
+      return True
+    if isinstance(f, str):
+      return hasattr(v, 'get_metadata') and v.get_metadata().get('tag') == f
+    if isinstance(f, type):
+      return hasattr(v, 'type') and issubclass(v.type, f)
+    if isinstance(f, nnx.PathContains):
+      return f.key in path
+    if isinstance(f, nnx.Not):
+      return not ref_match(f._vf_inner, path, v)
+    raise ValueError(f)
+
   for fs in filt_sets:
     parts = statelib.split_state(state, *fs)
     parts = parts if isinstance(parts, tuple) else (parts,)
     ctx.op('split_state')
     allp = [p for s in parts for p, _ in flat_of(s)]
     ctx.check(sorted(allp) == sp and len(set(allp)) == len(allp), 'state.split_partition', lambda: dict(filters=repr(fs)))
+    # ... by FIRST match
+    want_groups = [[] for _ in fs]
+    for pth in sp:
+      for gi, f in enumerate(fs):
+        if ref_match(f, pth, want_all[pth]):
+          want_groups[gi].append(pth)
+          break
+    got_groups = [sorted(p for p, _ in flat_of(s_)) for s_ in parts]
+    ctx.check(got_groups == [sorted(g) for g in want_groups], 'state.split_first_match',
+              lambda: dict(filters=repr(fs), want=[g[:6] for g in want_groups], got=[g[:6] for g in got_groups]))
     for order in (parts, parts[::-1]):
       check_flat_equals(ctx, 'state.merge_of_split', statelib.merge_state(*order), want_all, extra=repr(fs))
     sub = statelib.filter_state(state, *fs[:-1]) if len(fs) > 1 else statelib.filter_state(state, fs[0])
